@@ -38,15 +38,15 @@ ASSUMPTIONS = ["ThreadSanitizer (clang 14, -O1) reports every happens-before vio
                "executions in which every thread sleeps in futex(2) with unchanged CPU time and context-switch counts over 7 samples 5 s apart"]
 TECHNIQUE = ("property-based testing (Hypothesis) of thread schedules: ThreadSanitizer race detection + differential concurrent vs "
              "sequential vs reverse vs solo vs repeated execution of the same per-thread programs, bitwise on all channels; id uniqueness")
-LEVEL_TEXT = ("Exploration: each run executes 64 (quick) to about 1200 (thorough) generated multi-thread schedules under ThreadSanitizer "
+LEVEL_TEXT = ("Exploration: each run executes 64 (quick) to 1600 (thorough) generated multi-thread schedules under ThreadSanitizer "
               "and, with 10x the volume, in the release build; every instance's observations (tables bitwise, all strings and files) must be "
               "the same whether its thread ran alone, sequentially, or concurrently with up to 7 others, in every repetition, and ids must be "
               "unique and never reused. Limits: schedules and interleavings are sampled; TSan sees only executed paths; the qsort lock cannot "
               "be observed on glibc; TRANSPORT runs in two threads at once are excluded (known finding: transport.cpp file-scope globals).")
-FLOORS = {"quick": 40, "thorough": 600}
+FLOORS = {"quick": 40, "thorough": 1000}
 _NSH = os.environ.get("VERIF_C06_SHARDS")       # development only: fewer worker processes on a shared machine (same total budget)
 SHARDS = {"quick": int(_NSH) if _NSH else 8, "thorough": int(_NSH) if _NSH else 16}
-BUDGET = {"quick": 64, "thorough": 1200, "replay": 1}      # schedules per run (all shards together)
+BUDGET = {"quick": 64, "thorough": 1600, "replay": 1}      # schedules per run (all shards together)
 
 TIMEOUT = float(os.environ.get("VERIF_C06_TIMEOUT", "300"))     # generous: a harness execution normally takes 0.02 - 1 s
 TSAN_OPTS = ("halt_on_error=0 exitcode=66 report_signal_unsafe=0 second_deadlock_stack=1 history_size=4 "
